@@ -788,7 +788,7 @@ def scale_items(rules=("TSLACK",)):
         who = worker_names(sp)[:2] + facility_names(sp)[:1]
         ra = {w: [1, 2, 4, 6, 7, 8, 10, 12] if i == 0 else [0, 3, 5, 9, 11, 13, 14, 15] for i, w in enumerate(who)}
         out.append((sp, {"rule": rules[0], "absence": [5, 6], "res_absence": ra, "max_time": seq_bound(sp) + 30}))
-    return out
+    return out + large_items(rules)
 
 
 def auto_cure_specs():
@@ -940,3 +940,67 @@ def oven_spec(cure_work=3.0):
             "components": [{"name": "panel", "tasks": [0]}, {"name": "frame", "tasks": [1, 2]}],
             "workplaces": [{"name": "oven", "cap": 1.0, "targets": [0], "facilities": [{"name": "heater", "skills": {"cure": 1.0}, "cost": 1.0}]}],
             "teams": [{"name": "TM0", "targets": [1, 2], "workers": [{"name": "W0", "skills": {"weld": 1.0, "paint": 1.0}, "cost": 1.0}]}], "label": "oven:%s" % cure_work}
+
+
+def large_specs():
+    """a second, larger catalogue (20-40 tasks or resources, runs of 40-130 steps): thresholds, caches, sorts and loops that only go wrong beyond a handful of elements"""
+    out = []
+    # (L1) a chain of thirty tasks, three pooled workers
+    tasks = [{"name": "T%d" % i, "work": float(1 + (i * 2) % 3)} for i in range(30)]
+    sp = with_teams({"tasks": tasks, "links": [[i, i + 1, "FS"] for i in range(29)]}, "POOL3")
+    sp["label"] = "large:chain30"
+    out.append(sp)
+    # (L2) hub -> 24 parallel tasks -> join; one team of twelve (two of them solo, unequal skills and rates)
+    n = 24
+    tasks = [{"name": "H", "work": 1.0}] + [{"name": "P%d" % i, "work": float(1 + (i * 5) % 4)} for i in range(n)] + [{"name": "J", "work": 2.0}]
+    links = [[0, i + 1, "FS"] for i in range(n)] + [[i + 1, n + 1, "FS"] for i in range(n)]
+    names = [t["name"] for t in tasks]
+    ws = [{"name": "W%02d" % i, "skills": {nm: (1.0 if (i + k) % 5 else 2.0) for k, nm in enumerate(names)}, "cost": float(1 + i % 4), "solo": i in (3, 7)} for i in range(12)]
+    out.append({"tasks": tasks, "links": links, "teams": [{"name": "TM0", "targets": list(range(len(tasks))), "workers": ws}], "label": "large:fan24-team12"})
+    # (L3) twelve components with one machine task each; a hall with room and machines for twelve, a bay for three; fourteen operators
+    n = 12
+    tasks = [{"name": "M%d" % i, "work": float(2 + i % 4), "nf": True} for i in range(n)]
+    comps = [{"name": "K%d" % i, "tasks": [i], "space": 1.0} for i in range(n)]
+    wps = [{"name": "HALL", "cap": 12.0, "targets": list(range(n)), "facilities": [{"name": "HF%d" % i, "skills": {"M%d" % j: 1.0 for j in range(n)}, "cost": float(1 + i % 3)} for i in range(12)]},
+           {"name": "BAY", "cap": 3.0, "targets": list(range(n)), "facilities": [{"name": "BF%d" % i, "skills": {"M%d" % j: 2.0 for j in range(n)}, "cost": 4.0} for i in range(3)]}]
+    fsk = {f["name"]: 1.0 for wp in wps for f in wp["facilities"]}
+    teams = [{"name": "TM0", "targets": list(range(n)), "workers": [{"name": "O%02d" % i, "skills": {"M%d" % j: 1.0 for j in range(n)}, "fskills": dict(fsk), "cost": 1.0} for i in range(14)]}]
+    out.append({"tasks": tasks, "links": [], "components": comps, "workplaces": wps, "teams": teams, "label": "large:hall-of-twelve"})
+    # (L4) five layers of five tasks, every task linked to two tasks of the next layer with rotating kinds; three teams of three
+    tasks = [{"name": "G%d" % i, "work": float(1 + (i * 3) % 4)} for i in range(25)]
+    kinds = ("FS", "SS", "FS", "FF", "FS", "SF", "FS")
+    links = []
+    for layer in range(4):
+        for j in range(5):
+            a = layer * 5 + j
+            for d in (0, 2):
+                links.append([a, (layer + 1) * 5 + (j + d) % 5, kinds[(a + d) % len(kinds)]])
+    teams = []
+    for k in range(3):
+        tg = [i for i in range(25) if i % 3 == k]
+        teams.append({"name": "TM%d" % k, "targets": tg, "workers": [{"name": "V%d_%d" % (k, i), "skills": {"G%d" % t: 1.0 for t in tg}, "cost": float(1 + i)} for i in range(3)]})
+    out.append({"tasks": tasks, "links": links, "teams": teams, "label": "large:grid5x5"})
+    # (L5) a very long run: four tasks of 30 work units in a chain, one worker with a long weekly calendar, a second one helping on the last task
+    tasks = [{"name": "R%d" % i, "work": 30.0} for i in range(4)]
+    week = [d for w in range(20) for d in (7 * w + 5, 7 * w + 6)]
+    teams = [{"name": "TM0", "targets": [0, 1, 2, 3], "workers": [{"name": "W0", "skills": {"R0": 1.0, "R1": 1.0, "R2": 1.0, "R3": 1.0}, "cost": 1.0, "absence": week},
+                                                                 {"name": "W1", "skills": {"R3": 0.5}, "cost": 2.0}]}]
+    out.append({"tasks": tasks, "links": [[0, 1, "FS"], [1, 2, "FS"], [2, 3, "FS"]], "teams": teams, "label": "large:long-run-130"})
+    # (L6) twenty independent tasks queueing for four workers of two teams, ten tasks each
+    tasks = [{"name": "Q%02d" % i, "work": float(1 + (i * 7) % 5)} for i in range(20)]
+    teams = [{"name": "TA", "targets": list(range(0, 10)), "workers": [{"name": "a%d" % i, "skills": {"Q%02d" % j: 1.0 for j in range(10)}, "cost": 1.0} for i in range(2)]},
+             {"name": "TB", "targets": list(range(10, 20)), "workers": [{"name": "b%d" % i, "skills": {"Q%02d" % j: 1.0 for j in range(10, 20)}, "cost": 2.0} for i in range(2)]}]
+    out.append({"tasks": tasks, "links": [], "teams": teams, "label": "large:queue-of-twenty"})
+    return out
+
+
+LARGE_ABSENCE = ([], [5, 6, 12, 13, 19, 20, 26, 27, 33, 34, 40, 41, 47, 48, 54, 55, 61, 62], [1, 2, 3, 30, 31, 32, 33, 34, 35, 36, 37, 38, 39, 60])
+
+
+def large_items(rules=("TSLACK",)):
+    out = []
+    for sp in large_specs():
+        for ab in LARGE_ABSENCE:
+            for rule in rules:
+                out.append((sp, {"rule": rule, "absence": list(ab), "max_time": seq_bound(sp) + len(ab) + 20}))
+    return out
